@@ -369,7 +369,8 @@ Got(k) == IF k \in DmKinds
             THEN LET d == BuildSR(IF Rebuilds(k) THEN Rebuilt(nacm) ELSE dm)
                  IN [fc |-> IF d.cls = "gonze" THEN d.sr ELSE d.fc, nac |-> d.nac, cls |-> d.cls,
                      gv |-> IF UsesGV(k) THEN GvAfterQuery(k) ELSE "na"]
-          ELSE IF k = "rdq" THEN [src |-> rs.rd]
+          \* (the generator weighs the displacements with the SUPERCELL masses, which it reads when run)
+          ELSE IF k = "rdq" THEN [src |-> IF massS = "cur" THEN rs.rd ELSE "old"]
           ELSE [src |-> rs.mesh.st]
 Prov(k) == IF Got(k) = Want(k) THEN "cur" ELSE "old"
 
